@@ -522,6 +522,12 @@ def run(ctx):
                 'JSON by an own span parser — every value (scalar, array element, whole array / object) replaced by null, "", [], {}, 0, [null], {"a":null}, "x", true, -1, 1e999, [[]]; every NUMBER by 0, 1, 2, 3, -1, a huge value; every member deleted, every array element deleted, null inserted in front of every array; version-like strings replaced by neighbouring values; '
                 'strings replaced by a keyword prefix + keyword suffix of the extractor OVERLAPPING by 0.. characters (e.g. __MSG__ for __MSG_ + __); key/value text (YAML, TOML, properties, os-release, MANIFEST) — every value replaced by each of ", \', "\\, \\, empty, "", =, :, null, ~, [], {}, 0, -1, [null], a blank; numbers, line deletion, affix strings likewise; '
                 'XML / plist — element text and attribute values replaced by empty, blank, 0, -1, &, <, ", ]]>, single-line elements deleted. Quick tier: per extractor the 3 fixtures that cover the most distinct member names, 20 targets per operator family, every operator at least once (null and [null] on every target); thorough: 10 fixtures, 80 targets, every operator on every target. '
+                'SINGLE-VALUE FILES (operator family tok): the whole content replaced by each of r1, 1, 1.0, -, --, -1, a, a-, -a, a-1, _, ., r, v1, 0, -r1, a-r1, a-1-r1, 1-r1, " r1 " and by each component of the file\'s own value (every token in both tiers). '
+                'RUN MODES (harness/cmd/c02gen/modes.go), class run:<mode>:<class>, the other ways the engine or an embedder calls Extract with the same bytes: ctx = cancelled context, dl = expired deadline, rd = Reader that is only an io.Reader (no Seek / ReadAt), '
+                'vfs = ScanInput over an fstest.MapFS with Root "", cfg = the non-default plugin configuration (dpkg IncludeNotInstalled, rpm Timeout 0, gobinary VersionFromContent toggled, archive without filename / hash extraction, cargoauditable with build deps), '
+                'norel / usrlib / osc = no os-release / usr/lib/os-release only / os-release with quotes, comments, odd lines; osrh osrk osalp osub osb osv osid osnone = os-release of other distributions and with ID / VERSION_ID / BUILD_ID missing in every combination the toDistro / toNamespace / Ecosystem fallbacks distinguish; stat = a stats collector is configured (every After* hook runs), statnil = stats collector AND ScanInput.Info == nil (what a caller of Extract outside the walk may pass). '
+                'SYNTHETIC FIXTURES (synthetic.go) where /repo has no parseable seed: three bzImage kernels built by the harness (testdata/valid of os/kernel/vmlinuz is an empty file); containerd state files (status / shim.pid) placed at the container ids read out of the fixture meta.db. '
+                'On every returned package the harness also calls the extractor\'s ToPURL and Ecosystem (a panic there is a C02 violation like one in Extract). '
                 'modelled/<fmt> = c03gen malformed inputs of the five line formats run on implementation and Lean model (pk must agree). '
                 'non-trivial = FileRequired accepted the path AND Extract returned at least one package (the parser got far enough to produce output); distinct = distinct case lines. '
                 'distribution key = "<mutation class> <status>"') % (MUTATIONS['quick'], MUTATIONS['thorough'])
